@@ -664,9 +664,13 @@ func replay(c json.RawMessage) (bool, string, error) {
 		Harness  string `json:"harness"`
 		Pattern  string `json:"pattern"`
 		Schedule []int  `json:"schedule"`
+		Part     string `json:"part"`
 	}
 	if err := json.Unmarshal(c, &cs); err != nil {
 		return false, "", err
+	}
+	if cs.Part == "race" {
+		return false, "a race report of the free-running pass carries no schedule: run the check again to look for it", nil
 	}
 	world.Init()
 	vhook.Capture()
